@@ -142,9 +142,9 @@ func (r *c12run) runCase(c content, mode int, req [][]byte, reqName string, foll
 
 func C12(tier rt.Tier) int {
 	rep := rt.NewReport("C12", tier)
-	maxKeys, depth, modes := 2, 2, []int{0, 1, 4}
+	maxKeys, depth, modes := 2, 2, []int{0, 1, 4, 6}
 	if tier == rt.Thorough {
-		maxKeys, depth, modes = 4, 3, []int{0, 1, 2, 3, 4}
+		maxKeys, depth, modes = 4, 3, []int{0, 1, 2, 3, 4, 5, 6}
 	}
 	var mu sync.Mutex
 	reported := map[string]bool{}
